@@ -586,11 +586,15 @@ def r02_7(ctx: Ctx):
 LIST_MUT = ("append", "extend", "insert", "pop", "remove", "clear", "sort", "reverse")
 
 
-def r02_8(ctx: Ctx):
-    """R02.8 append-only history: appended generation lists are not mutated afterwards; nothing mutates lists obtained from the history accessors."""
+GROW_ONLY = {"append", "extend", "insert"}
+
+
+def r02_8(ctx: Ctx, growth_is_harmless: bool = False):
+    """R02.8 append-only history: appended generation lists are not mutated afterwards; nothing mutates lists obtained from the history accessors.
+    With growth_is_harmless (C04: the maximum over a growing multiset never decreases) only destructive mutations count."""
     obs = []
-    for o in c06.r06_3(ctx):
-        if "history changed" in o.detail or o.status != OK:
+    for o in ([] if growth_is_harmless else c06.r06_3(ctx)):
+        if "history changed" in o.detail:  # how often a metaepoch appends is C06's concern, not immutability
             o.rule = "R02.8"
             obs.append(o)
     n_app = 0
@@ -615,7 +619,7 @@ def r02_8(ctx: Ctx):
                         if n2.ast is None:
                             return False
                         for c in ast.walk(n2.ast):
-                            if isinstance(c, ast.Call) and isinstance(c.func, ast.Attribute) and c.func.attr in LIST_MUT and isinstance(c.func.value, ast.Name) and c.func.value.id in names:
+                            if isinstance(c, ast.Call) and isinstance(c.func, ast.Attribute) and c.func.attr in LIST_MUT and isinstance(c.func.value, ast.Name) and c.func.value.id in names and not (growth_is_harmless and c.func.attr in GROW_ONLY):
                                 return True
                             if isinstance(c, (ast.Assign, ast.AugAssign, ast.Delete)):
                                 for t in (c.targets if isinstance(c, (ast.Assign, ast.Delete)) else [c.target]):
@@ -624,6 +628,15 @@ def r02_8(ctx: Ctx):
                         return False
 
                     escapes = [n2 for n2 in cfg.nodes if n2.kind == "stmt" and isinstance(n2.ast, (ast.Assign, ast.AnnAssign)) and getattr(n2.ast, "value", None) is not None and isinstance(n2.ast.value, ast.Name) and n2.ast.value.id in names and any(isinstance(t, ast.Attribute) for t in (n2.ast.targets if isinstance(n2.ast, ast.Assign) else [n2.ast.target]))]
+                    if growth_is_harmless:
+                        # the alias matters only if something destructive is done through it
+                        kept = []
+                        for e2 in escapes:
+                            attrs = [t.attr for t in (e2.ast.targets if isinstance(e2.ast, ast.Assign) else [e2.ast.target]) if isinstance(t, ast.Attribute)]
+                            destructive = [c for g in ctx.prog.functions_in(ci) for c in body_walk(g.node) if isinstance(c, ast.Call) and isinstance(c.func, ast.Attribute) and c.func.attr in LIST_MUT and c.func.attr not in GROW_ONLY and isinstance(c.func.value, ast.Attribute) and c.func.value.attr in attrs]
+                            if destructive:
+                                kept.append(e2)
+                        escapes = kept
                     for e2 in escapes:
                         obs.append(ctx.ob("R02.8", f, e2.stmt, status=VIOLATION, detail=f"{f.short}: `{e2.label[:60]}` keeps a second reference (an attribute) to a list that is recorded in the history: later appends through that attribute change the recorded generation"))
                     later = [n2 for n2 in cfg.nodes if n2 is not node and mutates(n2) and cfg.can_reach(node, n2)]
@@ -631,7 +644,7 @@ def r02_8(ctx: Ctx):
                         obs.append(ctx.ob("R02.8", f, later[0].stmt, status=VIOLATION, detail=f"{f.short}: `{later[0].label[:60]}` mutates a list after it was recorded in the history (the recorded metaepoch changes afterwards)"))
                     else:
                         obs.append(ctx.ob("R02.8", f, node.stmt, detail="recorded list is not touched after the append", construct=f"{f.short}:{node.label[:50]}"))
-                    for a in attr_lists:
+                    for a in ([] if growth_is_harmless else attr_lists):
                         # a list held in an attribute is recorded: tabled only for the one-shot local deme
                         one_shot = any(o2.detail.startswith("one-shot") for o2 in c06.r06_4(ctx) if o2.subject.endswith(ci.name + ".run_metaepoch"))
                         obs.append(ctx.ob("R02.8", f, node.stmt, status=OK if one_shot else VIOLATION, detail=f"attribute-held list `{norm(a)}` recorded by a one-shot deme (filled before the append, deme deactivated after)" if one_shot else f"`{norm(a)}` stays reachable through the deme after being recorded and can be appended to later", construct=f"{f.short}:attr-list"))
@@ -654,7 +667,7 @@ def r02_8(ctx: Ctx):
                     s2 = ctx.eff._alias_source(f, holder.id)
                     if s2 is not None and s2.rsplit(".", 1)[-1] in ("current_population", "history", "_history") :
                         src = s2
-                if src is not None and not (c.func.attr == "append" and src.endswith("_history")):
+                if src is not None and not (c.func.attr == "append" and src.endswith("_history")) and not (growth_is_harmless and c.func.attr in GROW_ONLY):
                     obs.append(ctx.ob("R02.8", f, c, status=VIOLATION, detail=f"`{norm(c)[:60]}` mutates a list obtained from `{src}`: a recorded generation changes after the fact"))
     return obs
 
